@@ -65,6 +65,29 @@ type f5lab struct {
 
 var f5strs = []string{"a", "b", "c", "d"}
 
+// f5xvals: the typed literal values of the mixed-kind families (domain "x"); values of different
+// kinds that convert into each other are the point. Index = f5lab.v.
+var f5xvals = []func() *Expr{
+	func() *Expr { return Int(0) }, func() *Expr { return Int(1) }, func() *Expr { return Int(2) },
+	func() *Expr { return Float("0.0") }, func() *Expr { return Float("1.0") }, func() *Expr { return Float("1.5") }, func() *Expr { return Float("2.0") },
+	func() *Expr { return Str("0") }, func() *Expr { return Str("1") }, func() *Expr { return Str("") }, func() *Expr { return Str("a") },
+	func() *Expr { return Null() }, func() *Expr { return Bool(true) }, func() *Expr { return Bool(false) },
+}
+
+// f5xlabels: mixed-kind labels as literals and, when vars is set, also read from a variable.
+func f5xlabels(vars bool, n int) []f5lab {
+	var out []f5lab
+	for v := 0; v < n; v++ {
+		out = append(out, f5lab{"xlit", v})
+	}
+	if vars {
+		for v := 0; v < n; v++ {
+			out = append(out, f5lab{"xvar", v})
+		}
+	}
+	return out
+}
+
 func f5labels(dom string) []f5lab {
 	kinds := map[string][]string{
 		"int":  {"lit", "var", "call", "expr"},
@@ -105,6 +128,11 @@ func (l f5lab) expr(dom string) *Expr {
 		case "call":
 			return Call("lab", Str(f5strs[l.v]))
 		}
+	case "x":
+		if l.kind == "xvar" {
+			return Var(fmt.Sprintf("m%d", l.v))
+		}
+		return f5xvals[l.v]()
 	case "bool":
 		switch l.kind {
 		case "eq":
@@ -148,6 +176,8 @@ func f5setup(dom string, labs []f5lab, r int, off string) []*Stmt {
 			} else {
 				out = append(out, Assign("z", Int(r)))
 			}
+		case dom == "x" && l.kind == "xvar":
+			out = append(out, Assign(fmt.Sprintf("m%d", l.v), f5xvals[l.v]()))
 		case dom == "str" && l.kind == "var":
 			if off != "" { // nominal value in round 0, the next one in round 1
 				out = append(out, Assign(fmt.Sprintf("s%d", l.v), Str(f5strs[l.v])),
@@ -312,6 +342,13 @@ var f5IntSubjects = []string{"for", "while", "param", "call", "expr", "lit"}
 
 // f5subjectValues returns the foreach subject holding every value of the type plus one no label has.
 func f5subjectValues(dom string) *Expr {
+	if dom == "x" {
+		e := &Expr{K: EArr}
+		for _, mk := range f5xvals {
+			e.A = append(e.A, mk())
+		}
+		return e
+	}
 	if dom == "str" {
 		return Arr(Str("a"), Str("b"), Str("c"), Str("d"))
 	}
@@ -319,8 +356,12 @@ func f5subjectValues(dom string) *Expr {
 }
 
 // f5switchProgram wraps the switch into the subject form.
-func f5switchProgram(dom, form string, labs []f5lab, defPos int, ending string) *Program {
+func f5switchProgram(dom, form string, labs []f5lab, defPos int, ending string, subj int) *Program {
 	p := &Program{}
+	if dom == "x" { // one literal subject, literal labels of any kind
+		p.Main = []*Stmt{EchoS("s:"), f5switch(dom, f5xvals[subj](), labs, defPos, ending, false), EchoS(";\n")}
+		return p
+	}
 	subjExpr := func() *Expr {
 		if dom == "bool" {
 			return Bool(true)
@@ -422,9 +463,16 @@ func f5matchProgram(dom string, labs []f5lab, comp []int, defPos int, valKind st
 		return Match(subj, arms...)
 	}
 	p.Main = f5inRounds(dom, labs, func(off string) []*Stmt {
-		body := append(f5pre(dom, labs), Assign("r", mk()), Echo(Var("x"), Str(":"), Var("r"), Str(";")))
+		shown := "x"
+		if dom == "x" { // subjects of every kind: print their position instead
+			shown = "i"
+		}
+		body := append(f5pre(dom, labs), Assign("r", mk()), Echo(Var(shown), Str(":"), Var("r"), Str(";")))
 		l := Loop(LForeach, "x", 4, body...)
 		l.Subj = f5subjectValues(dom)
+		if dom == "x" {
+			l.Key = "i"
+		}
 		return append(f5setup(dom, labs, 0, off), l)
 	})
 	p.Main = append(p.Main, EchoS("\n"))
@@ -476,11 +524,23 @@ type f5cfg struct {
 	ValKind string  // match: arm values "lit" | "call"
 	HasElse bool    // chain
 	Swapped bool    // chain: `L == $x` instead of `$x == L`
+	Subj    int     // switch over mixed kinds (Dom "x"): index of the literal subject in f5xvals
+}
+
+func (c f5cfg) Next() []cfgT {
+	var out []cfgT
+	for _, n := range c.Shrink() {
+		out = append(out, n)
+	}
+	return out
 }
 
 func (c f5cfg) ID() string {
 	switch c.Disp {
 	case "switch":
+		if c.Dom == "x" {
+			return fmt.Sprintf("F5/switch-x/subj%d/%s/def@%d/%s", c.Subj, f5name(c.Labs), c.DefPos, c.Ending)
+		}
 		return fmt.Sprintf("F5/switch-%s/%s/%s/def@%d/%s", c.Dom, c.Form, f5name(c.Labs), c.DefPos, c.Ending)
 	case "match":
 		return fmt.Sprintf("F5/match-%s/%s/arms%v/def@%d/val-%s", c.Dom, f5name(c.Labs), c.Comp, c.DefPos, c.ValKind)
@@ -491,7 +551,7 @@ func (c f5cfg) ID() string {
 func (c f5cfg) Build() *Program {
 	switch c.Disp {
 	case "switch":
-		return f5switchProgram(c.Dom, c.Form, c.Labs, c.DefPos, c.Ending)
+		return f5switchProgram(c.Dom, c.Form, c.Labs, c.DefPos, c.Ending, c.Subj)
 	case "match":
 		return f5matchProgram(c.Dom, c.Labs, c.Comp, c.DefPos, c.ValKind)
 	}
@@ -556,7 +616,7 @@ func (c f5cfg) Shrink() []f5cfg {
 			e := e
 			with(func(n *f5cfg) { n.Ending = e })
 		}
-		if c.Form != "foreach" {
+		if c.Form != "foreach" && c.Dom != "x" {
 			with(func(n *f5cfg) { n.Form = "foreach" })
 		}
 	case "match":
@@ -587,7 +647,7 @@ func (c f5cfg) Shrink() []f5cfg {
 		}
 	}
 	// a simpler label form with the same value (alphabet order = simplest first)
-	kinds := map[string][]string{"int": {"lit", "var", "expr", "call"}, "str": {"lit", "var", "call"}, "bool": {"eq", "lt", "var", "call"}}[c.Dom]
+	kinds := map[string][]string{"int": {"lit", "var", "expr", "call"}, "str": {"lit", "var", "call"}, "bool": {"eq", "lt", "var", "call"}, "x": {"xlit", "xvar"}}[c.Dom]
 	for i, l := range c.Labs {
 		for _, k := range kinds {
 			if k == l.kind {
@@ -685,6 +745,48 @@ func F5(b f5Bound, yield func(f5Item) bool) {
 					return true
 				})
 			}
+		}
+	}
+	// G: match over labels and subjects of every scalar kind (identity decides). Literal labels, and
+	// for <= 2 conditions also labels read from a variable; all 14 values as subjects.
+	for c := 1; c <= b.MatchC && ok; c++ {
+		alpha := f5xlabels(c <= 2, len(f5xvals))
+		for _, comp := range f5compositions(c) {
+			f5tuples(alpha, c, func(labs []f5lab) bool {
+				for defPos := 0; defPos <= len(comp); defPos++ {
+					if !y(f5cfg{Disp: "match", Dom: "x", Labs: labs, Comp: comp, DefPos: defPos, ValKind: "lit"}, c <= 1) {
+						return false
+					}
+				}
+				return true
+			})
+		}
+	}
+	// H: switch with a literal subject and literal labels of other kinds, restricted to the pairs
+	// whose loose comparison is settled (see model.go)
+	for subj := range f5xvals {
+		sv, _ := litOf(f5xvals[subj]())
+		if sv.kind == "null" || sv.kind == "bool" {
+			continue
+		}
+		var alpha []f5lab
+		for v := range f5xvals {
+			lv, _ := litOf(f5xvals[v]())
+			if _, settled := looseLit(sv, lv); settled || lv.kind == sv.kind {
+				alpha = append(alpha, f5lab{"xlit", v})
+			}
+		}
+		for k := 1; k <= b.SubK && ok; k++ {
+			f5tuples(alpha, k, func(labs []f5lab) bool {
+				for defPos := -1; defPos <= k; defPos++ {
+					for _, ending := range []string{"break", "fall"} {
+						if !y(f5cfg{Disp: "switch", Dom: "x", Form: "xlit", Subj: subj, Labs: labs, DefPos: defPos, Ending: ending}, k <= 1) {
+							return false
+						}
+					}
+				}
+				return true
+			})
 		}
 	}
 	// F: if / elseif chains
